@@ -479,28 +479,46 @@ def _decides(t: ast.AST, cmp_node: ast.Compare, val: bool) -> bool:
 
 
 def _suffix_gate(cfg: CFG, sn: int, sfx) -> bool:
-    """all paths entry->success pass the false edge of at least one `x not in ALLOWED` test"""
-    tests = set()
-    for cmp_node, _ in sfx:
-        for n in cfg.nodes:
-            if n.kind == "test" and n.ast is not None and isinstance(cmp_node.ops[0], ast.NotIn) and _decides(n.ast, cmp_node, False):
-                tests.add(n.id)
-    if not tests:
+    """all paths entry->success take, at some test, an edge that implies that a suffix IS in the allowed set: the false edge of
+    `x not in ALLOWED`, the true edge of `x in ALLOWED`, or the corresponding edge of a test of a local bound once to such a
+    comparison (`ok = compound in ALLOWED ... if not ok: return False`)"""
+    cmp_nodes = [c for c, _ in sfx]
+    decisive: set[tuple[int, str]] = set()
+    for n in cfg.nodes:
+        if n.kind != "test" or n.ast is None:
+            continue
+        for c in cmp_nodes:
+            if _decides(n.ast, c, True):
+                decisive.add((n.id, "t"))
+            if _decides(n.ast, c, False):
+                decisive.add((n.id, "f"))
+        t, neg = n.ast, False
+        while isinstance(t, ast.UnaryOp) and isinstance(t.op, ast.Not):
+            t, neg = t.operand, not neg
+        if isinstance(t, ast.Name):
+            from ..cfg import reaching_assignments
+
+            defs = reaching_assignments(cfg, n.id, t.id)
+            vals = [d.value for d in defs if isinstance(d, ast.Assign) and len(d.targets) == 1 and isinstance(d.targets[0], ast.Name)] if defs else []
+            if defs and len(vals) == len(defs) and all(any(v is c for c in cmp_nodes) for v in vals) and len({isinstance(v.ops[0], ast.NotIn) for v in vals}) == 1:
+                # every binding that reaches this test is such a comparison
+                is_in = not isinstance(vals[0].ops[0], ast.NotIn)
+                decisive.add((n.id, "t" if (is_in != neg) else "f"))
+    if not decisive:
         return False
-    # search a path that never leaves such a test by its 'f' (not in -> False => allowed) edge
     seen = {cfg.entry}
     stack = [cfg.entry]
     while stack:
         n = stack.pop()
         if n == sn:
             return False
-        for s, lab in cfg.succ[n]:
-            if lab == "x" or s in seen:
+        for s_, lab in cfg.succ[n]:
+            if lab == "x" or s_ in seen:
                 continue
-            if n in tests and lab == "f":
+            if (n, lab) in decisive:
                 continue
-            seen.add(s)
-            stack.append(s)
+            seen.add(s_)
+            stack.append(s_)
     return True
 
 
